@@ -292,7 +292,7 @@ impl Engine for MultiEngine {
         "C20"
     }
     fn budget(&self) -> (u64, u64) {
-        (30_000, 300)
+        (120_000, 300)
     }
 
     fn generate(&self, seed: u64, _tier: Tier) -> Case<MultiCfg, MultiOp> {
